@@ -125,13 +125,19 @@ const hc10Epoch = 1700000000
 // order: symbolic clocks and signing times, concrete ascending refs (see registry: refs are only
 // used for identity and as last tie-break), prev-sets = symbolic subsets of the other events plus
 // one transaction of another DID. A listed previous transaction has a lower clock (DAG rule).
-func hc10Events(k int) []hc10Event {
+// shape 0: no further restriction. shape 1 (used for k=4): event 0 is an active creation without
+// previous transactions, only the last event may deactivate, signing times are concrete and ascending.
+func hc10Events(k, shape int) []hc10Event {
 	evs := make([]hc10Event, k)
 	foreign := hash.SHA256Hash{0xee}
 	for i := 0; i < k; i++ {
 		e := &evs[i]
 		e.clock = vRange(0, k)
-		e.sec = vRange(0, k)
+		if shape == 1 {
+			e.sec = i
+		} else {
+			e.sec = vRange(0, k)
+		}
 		if i > 0 {
 			p := evs[i-1]
 			// reference order, written independently of event.before: lexicographic on (clock, time), refs ascend with i
@@ -149,7 +155,11 @@ func hc10Events(k int) []hc10Event {
 				prevs = append(prevs, evs[j].tx.Ref)
 			}
 		}
-		e.deact = vBool()
+		if shape == 1 && i < k-1 {
+			e.deact = false
+		} else {
+			e.deact = vBool()
+		}
 		if e.deact {
 			e.doc = did.Document{ID: hTestDID}
 		} else {
@@ -284,10 +294,23 @@ func hc10HasService(d did.Document, name string) bool {
 
 // H10c: k events, store A receives them in (clock, time, ref) order, store B in an arbitrary
 // order (every arrival order is compared with the in-order store, hence with every other one),
-// optionally with one event delivered a second time.
+// optionally followed by a second delivery of every event (duplicates).
 func H10c() {
-	k := vParam("k10c", 3)
-	evs := hc10Events(k)
+	hc10Main("H10c", vParam("k10c", 3), vParam("shape10c", 0), vParam("dup10c", 0), vParam("time10c", 0))
+}
+
+// H10c2: the same with fewer events and all options (duplicates, resolve by time) in the quick tier.
+func H10c2() {
+	hc10Main("H10c2", vParam("k10c2", 2), 0, vParam("dup10c2", 1), vParam("time10c2", 1))
+}
+
+// H10c4: creation followed by three further events (3-way fork, fork and resolution, ...), shape 1.
+func H10c4() {
+	hc10Main("H10c4", vParam("k10c4", 4), vParam("shape10c4", 1), vParam("dup10c4", 0), vParam("time10c4", 0))
+}
+
+func hc10Main(H string, k, shape, dup, bytime int) {
+	evs := hc10Events(k, shape)
 	all := make([]bool, k)
 	for i := range all {
 		all[i] = true
@@ -295,29 +318,36 @@ func H10c() {
 	sA, _ := hNewStore()
 	sB, _ := hNewStore()
 	for i := range evs {
-		vAssert(sA.Add(evs[i].doc, evs[i].tx) == nil, "H10c.add_ok: Add failed")
+		vAssert(sA.Add(evs[i].doc, evs[i].tx) == nil, H+".add_ok: Add failed")
 	}
 	order := hc10Perm(k)
 	arrived := make([]bool, k)
 	anyDeact := false
 	lateFirst := false
 	for n, i := range order {
-		if i == 0 && n > 0 && len(hc10Heads(evs, arrived)) > 1 {
+		first := n > 0
+		for j := 0; j < i; j++ {
+			first = first && !arrived[j]
+		}
+		if first && len(hc10Heads(evs, arrived)) > 1 {
+			// the new event sorts before every stored event while the DID is conflicted
 			lateFirst = true
 		}
-		vAssert(sB.Add(evs[i].doc, evs[i].tx) == nil, "H10c.add_ok: Add failed")
+		vAssert(sB.Add(evs[i].doc, evs[i].tx) == nil, H+".add_ok: Add failed")
 		arrived[i] = true
 		anyDeact = anyDeact || evs[i].deact
 		if anyDeact {
 			// a deactivated DID never resolves as active again - at every intermediate state
-			r := hc10Resolve("H10c", sB, nil)
-			vAssert(!r.found && r.deactivated, "H10c.deactivated_stays_deactivated: a DID with an accepted deactivation resolves as active")
+			r := hc10Resolve(H, sB, nil)
+			vAssert(!r.found && r.deactivated, H+".deactivated_stays_deactivated: a DID with an accepted deactivation resolves as active")
 		}
 	}
-	if vParam("dup10c", 1) != 0 && vBool() {
+	if dup != 0 && vBool() {
+		// every transaction is delivered a second time (latest first)
 		vCover("duplicate")
-		d := vChoice(k)
-		vAssert(sB.Add(evs[d].doc, evs[d].tx) == nil, "H10c.add_ok: Add failed")
+		for d := k - 1; d >= 0; d-- {
+			vAssert(sB.Add(evs[d].doc, evs[d].tx) == nil, H+".add_ok: Add failed")
+		}
 	}
 	if order[0] != 0 {
 		vCover("out-of-order")
@@ -347,9 +377,9 @@ func H10c() {
 
 	// --- latest
 	for pass, s := range []*store{sA, sB} {
-		id := "H10c.A"
+		id := H + ".A"
 		if pass == 1 {
-			id = "H10c.B"
+			id = H + ".B"
 		}
 		r := hc10Resolve(id, s, nil)
 		vAssert(r.found == !refDeact && r.deactivated == refDeact, id+".latest_active_iff_never_deactivated: Resolve(latest) is active although a deactivation was accepted, or not although none was")
@@ -376,34 +406,34 @@ func H10c() {
 			vAssert(l.md.Hash == hDocHash(l.doc), id+".merged_hash_is_document_hash: hash of the conflicted version is not the hash of the merged document")
 		}
 	}
-	lA := hc10Resolve("H10c.A", sA, &resolver.ResolveMetadata{AllowDeactivated: true})
-	lB := hc10Resolve("H10c.B", sB, &resolver.ResolveMetadata{AllowDeactivated: true})
-	hc10SameAnswer("H10c", "latest", lA, lB)
+	lA := hc10Resolve(H+".A", sA, &resolver.ResolveMetadata{AllowDeactivated: true})
+	lB := hc10Resolve(H+".B", sB, &resolver.ResolveMetadata{AllowDeactivated: true})
+	hc10SameAnswer(H, "latest", lA, lB)
 
 	// --- by source transaction, by hash (payload hash of every event, hash of the latest version)
 	for i := range evs {
 		ref := evs[i].tx.Ref
 		q := &resolver.ResolveMetadata{AllowDeactivated: true, SourceTransaction: &ref}
-		a, b := hc10Resolve("H10c.A", sA, q), hc10Resolve("H10c.B", sB, q)
-		hc10SameAnswer("H10c", "by_source", a, b)
-		vAssert(a.found, "H10c.by_source_found: a stored transaction does not resolve as source transaction")
+		a, b := hc10Resolve(H+".A", sA, q), hc10Resolve(H+".B", sB, q)
+		hc10SameAnswer(H, "by_source", a, b)
+		vAssert(a.found, H+".by_source_found: a stored transaction does not resolve as source transaction")
 		ph := evs[i].tx.PayloadHash
 		q = &resolver.ResolveMetadata{AllowDeactivated: true, Hash: &ph}
-		hc10SameAnswer("H10c", "by_hash", hc10Resolve("H10c.A", sA, q), hc10Resolve("H10c.B", sB, q))
+		hc10SameAnswer(H, "by_hash", hc10Resolve(H+".A", sA, q), hc10Resolve(H+".B", sB, q))
 	}
 	if lA.found {
 		lh := lA.md.Hash
 		q := &resolver.ResolveMetadata{AllowDeactivated: true, Hash: &lh}
-		a, b := hc10Resolve("H10c.A", sA, q), hc10Resolve("H10c.B", sB, q)
-		hc10SameAnswer("H10c", "by_latest_hash", a, b)
-		vAssert(a.found && b.found, "H10c.by_latest_hash_found: the latest hash does not resolve")
+		a, b := hc10Resolve(H+".A", sA, q), hc10Resolve(H+".B", sB, q)
+		hc10SameAnswer(H, "by_latest_hash", a, b)
+		vAssert(a.found && b.found, H+".by_latest_hash_found: the latest hash does not resolve")
 	}
 	// --- by time: one symbolic instant anywhere around the signing times
-	if vParam("time10c", 1) != 0 {
+	if bytime != 0 {
 		t := time.Unix(int64(hc10Epoch+vRange(-1, k+1)), 0)
 		q := &resolver.ResolveMetadata{AllowDeactivated: true, ResolveTime: &t}
-		a, b := hc10Resolve("H10c.A", sA, q), hc10Resolve("H10c.B", sB, q)
-		hc10SameAnswer("H10c", "by_time", a, b)
+		a, b := hc10Resolve(H+".A", sA, q), hc10Resolve(H+".B", sB, q)
+		hc10SameAnswer(H, "by_time", a, b)
 		if a.found {
 			vCover("by-time-found")
 		} else {
@@ -412,20 +442,20 @@ func H10c() {
 	}
 
 	// --- statistics (last: the conflicted count is a known defect, see registry)
-	ccA, dcA, listedA := hc10Counts("H10c.A", sA)
-	ccB, dcB, listedB := hc10Counts("H10c.B", sB)
-	vAssert(dcA == 1 && dcB == 1, "H10c.document_count: DocumentCount is not 1 for one DID")
+	ccA, dcA, listedA := hc10Counts(H+".A", sA)
+	ccB, dcB, listedB := hc10Counts(H+".B", sB)
+	vAssert(dcA == 1 && dcB == 1, H+".document_count: DocumentCount is not 1 for one DID")
 	wantCC := uint(0)
 	if refConflicted {
 		wantCC = 1
 	}
-	vAssert(listedA == int(wantCC) && listedB == int(wantCC), "H10c.conflicted_listing: Conflicted() does not list exactly the conflicted DID")
-	vAssert(ccA == wantCC, "H10c.conflicted_count_in_order: ConflictedCount is wrong after in-order arrival")
-	vAssert(ccB == ccA, "H10c.conflicted_count_order_independent: ConflictedCount depends on the arrival order")
+	vAssert(listedA == int(wantCC) && listedB == int(wantCC), H+".conflicted_listing: Conflicted() does not list exactly the conflicted DID")
+	vAssert(ccA == wantCC, H+".conflicted_count_in_order: ConflictedCount is wrong after in-order arrival")
+	vAssert(ccB == ccA, H+".conflicted_count_order_independent: ConflictedCount depends on the arrival order")
 }
 
 func H10c_twin() {
-	evs := hc10Events(2)
+	evs := hc10Events(2, 0)
 	s, _ := hNewStore()
 	if s.Add(evs[1].doc, evs[1].tx) == nil && s.Add(evs[0].doc, evs[0].tx) == nil {
 		cc, _ := s.ConflictedCount()
@@ -433,5 +463,31 @@ func H10c_twin() {
 		if cc == 1 && r.found && len(r.md.SourceTransactions) == 2 && len(r.doc.Service) == 2 {
 			vAssert(false, "H10c_twin.reach: reachable")
 		}
+	}
+}
+
+func H10c2_twin() {
+	evs := hc10Events(2, 0)
+	s, _ := hNewStore()
+	if s.Add(evs[1].doc, evs[1].tx) == nil && s.Add(evs[0].doc, evs[0].tx) == nil && s.Add(evs[1].doc, evs[1].tx) == nil {
+		t := time.Unix(int64(hc10Epoch+vRange(-1, 3)), 0)
+		r := hc10Resolve("H10c2_twin", s, &resolver.ResolveMetadata{AllowDeactivated: true, ResolveTime: &t})
+		if r.found && r.md.Deactivated && len(r.md.SourceTransactions) == 1 && evs[1].prev[0] {
+			vAssert(false, "H10c2_twin.reach: reachable")
+		}
+	}
+}
+
+func H10c4_twin() {
+	evs := hc10Events(3, 1)
+	s, _ := hNewStore()
+	for _, i := range []int{2, 1, 0} {
+		if s.Add(evs[i].doc, evs[i].tx) != nil {
+			return
+		}
+	}
+	r := hc10Resolve("H10c4_twin", s, nil)
+	if r.found && len(r.md.SourceTransactions) == 3 && len(r.doc.Service) == 3 {
+		vAssert(false, "H10c4_twin.reach: reachable")
 	}
 }
